@@ -30,8 +30,17 @@ IMPORTS = ['LcdbModel.Props.CompactionProps', 'LcdbModel.Props.C06']
 TARGETS = ['LcdbModel.Props.CompactionProps', 'LcdbModel.Props.C06']
 
 
+def concurrent(chk, tier):
+    # snapshots taken while writes, flushes and compactions of other threads are in flight (deterministic scheduler): every
+    # key read twice through one snapshot gives the same answer, and what it shows is the state after a whole prefix of the
+    # writes (not a write that had only been published, not half a batch)
+    import conccheck
+    from vlib import Rng
+    conccheck.conc_part(chk, tier, Rng(chk.seed).fork('C06conc'), {'snapshot', 'snapstable', 'scan'}, scale=0.4)
+
+
 def run(tier):
-    return wlcheck.run(PID, tier, TAGS, THEOREMS, IMPORTS, TARGETS, families=['snapshot-chain', 'tombstones', 'random'])
+    return wlcheck.run(PID, tier, TAGS, THEOREMS, IMPORTS, TARGETS + ['conccheck'], families=['snapshot-chain', 'tombstones', 'random'], extra=concurrent)
 
 
 def replay(path):
